@@ -221,7 +221,8 @@ class Specialiser:
         if isinstance(tgt, (ast.Tuple, ast.List)):
             for i, e in enumerate(tgt.elts):
                 if isinstance(e, ast.Name):
-                    s.env[e.id] = ("unpack", v, i)
+                    # unpacking the whole result of a delegated decode = its i-th component
+                    s.env[e.id] = ("result", v[1], i) if (v[0] == "result" and v[2] is None) else ("unpack", v, i)
             return [s]
         raise AnalysisError(f"specialiser: unmodelled assignment `{norm(st)[:70]}` in {self.fn.name}")
 
@@ -410,7 +411,7 @@ class Specialiser:
                     return r if isinstance(op, ast.Is) else not r
                 if a[0] in ("tabletype",) and b[0] == "type":
                     return isinstance(op, ast.IsNot)
-                if b == ("const", None) and a[0] in ("const", "region", "type", "tabletype"):
+                if b == ("const", None) and a[0] in ("const", "region", "type", "tabletype", "result", "tuple"):
                     r = a == ("const", None)
                     return r if isinstance(op, ast.Is) else not r
                 return None
@@ -521,6 +522,16 @@ class Specialiser:
                     tuple(sorted((k.arg, self.ev(k.value, s)) for k in e.keywords if k.arg)))
         if isinstance(e, ast.Dict) and not e.keys:
             return ("emptydict",)
+        if isinstance(e, ast.IfExp):
+            c = self.static_cond(e.test, s)
+            if c is None and isinstance(e.test, ast.BoolOp):
+                vals = [self.static_cond(v, s) for v in e.test.values]
+                if isinstance(e.test.op, ast.And):
+                    c = False if False in vals else (True if all(v is True for v in vals) else None)
+                else:
+                    c = True if True in vals else (False if all(v is False for v in vals) else None)
+            if c is not None:
+                return self.ev(e.body if c else e.orelse, s)
         return ("sym", norm(e)[:80])
 
     def global_type(self, name):
